@@ -14,6 +14,11 @@ Inductive case :=
                                                        deep-snapshot differences that a Circuit record cannot carry (extra attributes, node order) *)
         (res : list (Circuit * Circuit)).           (* per result circuit: snapshot before / after the arguments were edited *)
 
+(* predictions of the model for every listed function, computed once when this file is compiled *)
+Definition pred_tbl : list (string * (bool * bool)) :=
+  Eval vm_compute in ((λ s, (s_name s, predict table (s_name s))) <$> table).
+Definition predicted (fn : string) : option (bool * bool) := (list_find (λ p, p.1 = fn) pred_tbl) ≫= λ p, Some p.2.2.
+
 Definition ceq (a b : Circuit) : bool := bool_decide (a = b).
 Definition obs_mutated (args : list (Circuit * Circuit * Circuit)) (an : list string) : bool :=
   existsb (λ p, negb (ceq p.1.1 p.1.2)) args || existsb (λ s, String.prefix "arg-" s) an.
@@ -24,10 +29,11 @@ Definition obs_shared (an : list string) : bool := existsb (λ s, String.prefix 
 Definition agree (k : case) : bool :=
   match k with
   | CCall fn args raised rc an res =>
-      let p := predict table fn in
-      bool_decide (is_Some (find_summary table fn)) &&
-      Bool.eqb p.1 (obs_mutated args an) &&
-      (if raised || negb rc then negb (obs_shared an) else Bool.eqb p.2 (obs_shared an))
+      match predicted fn with
+      | None => false
+      | Some p => Bool.eqb p.1 (obs_mutated args an) &&
+                  (if raised || negb rc then negb (obs_shared an) else Bool.eqb p.2 (obs_shared an))
+      end
   end.
 (* the property itself: arguments exactly as they were (after the call, on return or raise, and after later edits of the
    results), nothing mutable shared, results unaffected by later edits of the arguments *)
